@@ -958,7 +958,7 @@ func (c *ctxT) concurrent(cfg cfgT, rnd *common.Rand, nG, nK int, caseNo int) {
 		s := el[0].(xml.StartElement)
 		mk := ""
 		for _, a := range s.Attr {
-			if a.Name.Local == "id" {
+			if a.Name.Space == "" && a.Name.Local == "id" {
 				mk = a.Value
 			}
 		}
@@ -1045,6 +1045,40 @@ func corpus() []call {
 		call{entry: "pres", form: "reader", toks: el("", "presence", nil)},
 		call{entry: "send", form: "reader", toks: el("", "message", nil, xml.CharData(strings.Repeat("A", 70000)))},
 	)
+	// round E (review A-1), witnesses on the tree before `fix: the stanza encoder takes any
+	// attribute with the local name id / from / xmlns ...`: attributes that only share the LOCAL
+	// name with id / from / xmlns are other attributes
+	nsAt := func(kv ...string) []xml.Attr {
+		var as []xml.Attr
+		for i := 0; i+2 < len(kv); i += 3 {
+			as = append(as, xml.Attr{Name: xml.Name{Space: kv[i], Local: kv[i+1]}, Value: kv[i+2]})
+		}
+		return as
+	}
+	for _, as := range [][]xml.Attr{
+		nsAt(nsXML, "id", "x1"),                            // xml:id is not the stanza id: an id must be generated
+		nsAt("urn:attr", "id", "n1", "", "type", "get"),    // the same with an extension namespace
+		nsAt("urn:attr", "from", "o@example.org"),          // does not stand for the from of an s2s stanza
+		nsAt("urn:attr", "id", "", "urn:attr", "from", ""), // empty values: kept, they are not id / from
+		nsAt("urn:attr", "xmlns", "urn:v"),                 // not a namespace declaration
+		nsAt("", "id", "p1", "urn:attr", "id", "n1", "", "from", "a@example.org", "urn:attr", "from", "f"),
+	} {
+		for _, loc := range []string{"iq", "message", "presence"} {
+			for _, sp := range []string{"", nsClient, nsServer} {
+				cs = append(cs, call{entry: "send", form: "reader", toks: el(sp, loc, as, el("urn:a", "x", nsAt("urn:attr", "xmlns", "v", "urn:attr", "id", ""))...)})
+			}
+		}
+		cs = append(cs,
+			call{entry: "tw", form: "reader", toks: el("", "message", as)},
+			call{entry: "enc", form: "marshaler", toks: el("", "presence", as)},
+			call{entry: "enc", form: "xmlm", toks: el(nsClient, "message", as)},
+			call{entry: "sendel", form: "reader", toks: q, start: &xml.StartElement{Name: xml.Name{Local: "iq"}, Attr: as}},
+			call{entry: "encel", form: "reader", toks: q, start: &xml.StartElement{Name: xml.Name{Local: "message"}, Attr: as}},
+			call{entry: "reply", form: "reader", toks: el("", "iq", as)},
+			call{entry: "msg", form: "reader", toks: el("", "message", as)},
+			call{entry: "pres", form: "reader", toks: el("", "presence", as)},
+		)
+	}
 	return cs
 }
 
